@@ -67,3 +67,54 @@ def c_copy(a: str, b: str, c: str, form: int) -> bool:
         return len(out) == 3 and out[0] is a and out[1] is b and out[2] is c
     out = call_action("p_type_name", [None, a, ".", b, "AS"])
     return out["schema"] is a and out["type_name"] is b
+
+
+def _mutables(x, acc):
+    if isinstance(x, dict):
+        acc.append(id(x))
+        for v in x.values():
+            _mutables(v, acc)
+    elif isinstance(x, list):
+        acc.append(id(x))
+        for v in x:
+            _mutables(v, acc)
+    return acc
+
+
+def c_fresh(a: str, b: str, form: int) -> bool:
+    """
+    C14 / C03: the actions that build an entity skeleton hand out fresh accumulators: two calls
+    never share a list or dict (a shared `columns` list would let an ALTER on one table show up
+    in another table, another run or an already returned result).
+
+    pre: len(a) <= 2 and len(b) <= 2
+    pre: 0 <= form <= 4
+    post: _
+    """
+    if form == 0:
+        x, y = call_action("p_t_name", [a]), call_action("p_t_name", [b])
+    elif form == 1:
+        x, y = call_action("p_t_name", [a, ".", b]), call_action("p_t_name", [b, ".", a])
+    elif form == 2:
+        x = call_action("p_expression_domain_as", [call_action("p_domain_name", ["CREATE", "DOMAIN", a, "AS"]), "varchar", "(", ["3"], ")"])
+        y = call_action("p_expression_domain_as", [call_action("p_domain_name", ["CREATE", "DOMAIN", b, "AS"]), "ENUM", "(", ["'p'"], ")"])
+        if x.get("properties") != {} or y.get("properties") != {"values": ["'p'"]}:
+            return False
+    elif form == 3:
+        x = call_action("p_type_definition", [call_action("p_type_name", [None, a, "AS"]), "ENUM", "(", ["'a'"], ")"])
+        y = call_action("p_type_definition", [call_action("p_type_name", [None, b, "AS"]), "ENUM", "(", ["'b'"], ")"])
+    else:
+        x, y = call_action("p_seq_name", [None, a]), call_action("p_seq_name", [None, b])
+    return not (set(_mutables(x, [])) & set(_mutables(y, [])))
+
+
+def api_c_fresh(a, b, form):
+    from copy import deepcopy
+    from simple_ddl_parser import DDLParser
+    first = DDLParser("CREATE TABLE a LIKE b;\nCREATE TABLE c LIKE b;\nALTER TABLE a ADD x int;").run()
+    ok1 = len(first) == 2 and first[1]["columns"] == []
+    d1 = DDLParser("CREATE DOMAIN d2 AS ENUM ('p', 'q');\nCREATE DOMAIN d4 AS decimal(10);").run()
+    ok2 = len(d1) == 2 and d1[1]["properties"] == {}
+    snap = deepcopy(first)
+    DDLParser("CREATE TABLE e LIKE b;\nALTER TABLE e ADD y int;").run()
+    return {"like_tables": first, "domains": d1, "reproduced": not (ok1 and ok2 and first == snap)}
